@@ -629,6 +629,12 @@ def catalogue(tier, seed):
             lambda v, ctor=ctor, n=np_: (lambda X=ctor(v[:n]), Y=ctor(v[n:]): X * Y), subsets=bsub)
         add(cname + '.__truediv__', 'pose/pose', [opg('A'), opg('B')],
             lambda v, ctor=ctor, n=np_: (lambda X=ctor(v[:n]), Y=ctor(v[n:]): X / Y), subsets=bsub)
+        # the scalar operand of the documented pose <op> scalar forms (element-wise on the matrix) as a symbol
+        sg = lambda: Group('s', 'len', 1, [l for l in A.len1s if l[0] != '0'])
+        ssub = [one + '1', zero + '1', one + '0']
+        for on_, of_ in (('pose*scalar', lambda X, k_: X * k_), ('scalar*pose', lambda X, k_: k_ * X), ('pose/scalar', lambda X, k_: X / k_), ('pose+scalar', lambda X, k_: X + k_),
+                         ('pose-scalar', lambda X, k_: X - k_)):
+            add(cname + '.__mul__', on_, [opg('A'), sg()], lambda v, ctor=ctor, n=np_, of_=of_: (lambda X=ctor(v[:n]), k_=v[n]: of_(X, k_)), subsets=ssub)
         isub = [one] + ([ang, tr] if np_ >= 3 else []) + (['10', '01'] if np_ == 2 else [])
         # (`**` is not among the operations the statement names - compose, invert, act on points - nor tagged as supporting SymPy:
         #  negative powers of a symbolic pose refuse loudly inside numpy.linalg; not claimed)
